@@ -31,6 +31,7 @@ CALL_CLAUSES = [
     ('C07', 'evicted_entries_are_archived'), ('C07', 'archive_entries_preserved'), ('C07', 'parked_archive_untouched'),
     ('C06', 'hit_removes_nothing'), ('C06', 'no_overflow_removes_nothing'),
     ('C06', 'new_entry_resident_without_overflow'), ('C06', 'survivors_keep_their_values'),
+    ('C18', 'stored_under_key'),
 ]
 POLICY_CLAUSES = {
     'no': [('C05', 'size.nothing_resident')],
@@ -154,15 +155,19 @@ def explore(module, cls, maxsizes=(1, 2), purges=(False, True), universe=3, dept
                 archs.append('rejecting')       # a dict archive that cannot encode the value of key 0
             if only is not None and ('C18' in only or 'C11' in only):
                 archs.append('ignore')          # decorated with ignore='verbose' (a bare string naming a parameter), dict archive
+            if only is not None and ('C18' in only or 'C09' in only):
+                archs.append('kwonly')          # the user function has a keyword-only default (key generation adds it to every key)
             for arch in archs:
                 res['configs'] += 1         # (purge with no archive at decoration: one may be attached later)
                 init = {'module': module, 'cls': cls, 'maxsize': M, 'purge': purge, 'universe': universe,
-                        'arch0': 'dict' if arch in ('rejecting', 'ignore') else arch,
+                        'arch0': 'dict' if arch in ('rejecting', 'ignore', 'kwonly') else arch,
                         'mem': {}, 'A': None if arch == 'none' else {}, 'S': None, 'stats': [0, 0, 0]}
                 if arch == 'rejecting':
                     init['rejects'] = [0]
                 if arch == 'ignore':
                     init['ignore'] = 'verbose'
+                if arch == 'kwonly':
+                    init['kwonly'] = True
                 if pol in ('lru', 'mru'):
                     init['queue'] = []
                 if pol in ('lru', 'lfu'):
